@@ -161,6 +161,34 @@ Theorem C17_get_critical_section :
 Proof. exact get_critical_section. Qed.
 Print Assumptions C17_get_critical_section.
 
+(* When a response set gives its buffer back. Close runs in the request's goroutine while the
+   response set's receive goroutine may still be handling messages (MatchesZLabels writes into the
+   buffer). With Close as written — cancel the stream, WAIT for the receive goroutine, then
+   shardMatcher.Close() (Put), then CloseSend (C17_close_stmts_in_source) — for EVERY interleaving
+   and any number of messages still handled by the receiver, nothing writes into the buffer after
+   it went back to the pool, i.e. after another request may own it. *)
+Theorem C17_put_after_receiver : forall fuel sched writes,
+  write_after_put false (trun_close fuel sched 0 close_fixed writes false) = false.
+Proof. exact put_after_receiver. Qed.
+Print Assumptions C17_put_after_receiver.
+
+(* with the Put before the wait there is an interleaving that writes into a pooled buffer *)
+Theorem C17_early_put_refuted :
+  trun_close 10 (fun s => Nat.ltb s 2) 0 close_early_put 1 false
+    = [TAct CCancel; TAct CPut; TWrite; TStop; TAct CCloseSend; TAct CWait] /\
+  write_after_put false (trun_close 10 (fun s => Nat.ltb s 2) 0 close_early_put 1 false) = true.
+Proof. exact early_put_refuted. Qed.
+Print Assumptions C17_early_put_refuted.
+
+Theorem C17_close_stmts_in_source :
+  lazyCloseStmts = ["l.bufferedResponsesMtx.Lock()"; "l.closeSeries()"; "l.rb.close()"; "l.noMoreData = true";
+                    "l.dataOrFinishEvent.Signal()"; "l.bufferedResponsesMtx.Unlock()"; "<-l.donec";
+                    "l.shardMatcher.Close()"; "_ = l.cl.CloseSend()"]%string /\
+  eagerCloseStmts = ["if l.closeSeries != nil { l.closeSeries() }"; "l.wg.Wait()"; "l.shardMatcher.Close()";
+                     "_ = l.cl.CloseSend()"]%string.
+Proof. exact close_stmts_in_source. Qed.
+Print Assumptions C17_close_stmts_in_source.
+
 (* Non-vacuity *)
 Example C17_concurrent_nonvacuous :
   trun true [10; 20; 40; 80] 100 (tinit [[TGet 80; TPut 0%nat]; [TGet 80; TGet 20]]) [0; 1; 1; 0; 1]%nat
